@@ -138,6 +138,19 @@ pub fn big_case(n_items: usize, ips: u32, n_chroms: usize) -> Case {
     }
 }
 
+/// `n` identical zero-length items at one position (valid: sorted, non-overlapping) between two ordinary
+/// values, all in one section when `ips` >= n + 2
+pub fn repetitive_case(n: usize, ips: u32) -> Case {
+    let mut vals = vec![BwVal { s: 1, e: 4, v: 2.5 }];
+    for _ in 0..n {
+        vals.push(BwVal { s: 5, e: 5, v: 1.0 });
+    }
+    vals.push(BwVal { s: 5, e: 9, v: -3.0 });
+    let mut opts = Opts::default();
+    opts.items_per_slot = ips;
+    Case { input: BwInput { chroms: vec![BwChrom { name: "chrR".into(), size: 100, vals }], unused: vec![] }, opts, k1_nudged: 0, delay: None }
+}
+
 pub fn with_block_size(mut c: Case, block_size: u32) -> Case {
     c.opts.block_size = block_size;
     c
@@ -188,6 +201,9 @@ impl Prop for C01 {
             with_block_size(big_case(70_000, 8, 1), 65535),
             big_case(300, 1024, 300),
             big_case(1000, 1024, 1000),
+            // a section that compresses several hundred times: thousands of identical zero-length items
+            repetitive_case(6000, 8192),
+            repetitive_case(3000, 65535),
         ];
         if tier == Tier::Thorough {
             v.push(big_case(140_000, 65535, 2));
